@@ -112,6 +112,14 @@ class Budget(RuleAnalysis):
             return ["Exception"]
         return []
 
+    def raise_fact(self, node, fact, token):
+        """a blocking call that fails has waited first: the exception edge carries the state *after* the call (budget partly spent)"""
+        c = call_of(node)
+        if isinstance(node, ast.Call) and c is not None and _cname(c) in BLOCKING and fact[0] == "fresh" \
+                and any(self._mentions(a) for a in list(c.args) + [k.value for k in c.keywords]):
+            return [("stale", fact[1], fact[2])]
+        return [fact]
+
     def _mentions(self, e) -> bool:
         if e is None:
             return False
